@@ -49,7 +49,7 @@ HintedOf(U, n) == IF ~U.pkg[n].exists THEN {}
 GRP0 == [id |-> 0, kind |-> "", sol |-> <<>>, msg |-> "", calls |-> <<>>, profile |-> ""]
 BB0 == [callseq |-> <<>>, dcalls |-> {}, ccalls |-> {}, dret |-> {}, cret |-> {}, kreqs |-> {}, knames |-> {},
         cancelSeen |-> FALSE, cancelVal |-> 0, prevSolves |-> 0, callsThisSolve |-> 0]
-WB0 == [cls |-> <<>>, nlearnt |-> 0, trail |-> <<>>, lv |-> <<>>, base |-> 0, A |-> {}, vsolv |-> <<>>, vhelp |-> <<>>, on |-> FALSE]
+WB0 == [cls |-> <<>>, nlearnt |-> 0, trail |-> <<>>, lv |-> <<>>, why |-> <<>>, base |-> 0, A |-> {}, vsolv |-> <<>>, vhelp |-> <<>>, on |-> FALSE]
 
 Init == /\ l = 1
         /\ ctx = [id |-> -1, k |-> 0, begin |-> 0]
@@ -282,7 +282,7 @@ Assign ==
                        /\ Chk("C02", \A y \in c.lits \ {x} : LvlOfVar(y[1]) <= Rec[l].lvl,
                              "C02_ImpliedBelowAntecedent", <<Rec[l].v, Rec[l].lvl, Rec[l].why>>)
                   ELSE TRUE))
-     /\ wb' = [wb EXCEPT !.trail = Append(wb.trail, x), !.lv = Append(wb.lv, Rec[l].lvl), !.A = wb.A \cup {x}]
+     /\ wb' = [wb EXCEPT !.trail = Append(wb.trail, x), !.lv = Append(wb.lv, Rec[l].lvl), !.why = Append(wb.why, Rec[l].why), !.A = wb.A \cup {x}]
 
 Undo ==
   /\ E("undo") /\ UNCHANGED <<ctx, bb, grp>>
@@ -293,7 +293,7 @@ Undo ==
   /\ Chk("C14", Rec[l].len >= wb.base, "C14_UndoBelowRunStart", <<Rec[l].len, wb.base>>)
   /\ LET n == IF Rec[l].len <= Len(wb.trail) THEN Rec[l].len ELSE Len(wb.trail)
          t == SubSeq(wb.trail, 1, n)
-     IN wb' = [wb EXCEPT !.trail = t, !.lv = SubSeq(wb.lv, 1, n), !.A = Range(t)]
+     IN wb' = [wb EXCEPT !.trail = t, !.lv = SubSeq(wb.lv, 1, n), !.why = SubSeq(wb.why, 1, n), !.A = Range(t)]
 
 Learnt ==
   /\ E("learnt") /\ UNCHANGED <<ctx, bb, grp>>
@@ -305,9 +305,20 @@ Learnt ==
               "C03_LearntFromWhy", Rec[l].id)
      /\ wb' = [wb EXCEPT !.cls = Append(wb.cls, l), !.nlearnt = wb.nlearnt + 1]
 
+\* learnt clauses from which a learnt clause was derived, transitively
+RECURSIVE LearntAnc(_)
+LearntAnc(i) == LET d == {j \in Range(Rec[wb.cls[i]].why) : HasClause(j) /\ ClauseKind(j) = "learnt"}
+                IN d \cup UNION {LearntAnc(j) : j \in d}
+\* coverage only: a learnt clause that is the reason of an assignment on the final trail
+\* and also an ancestor of another such reason (the analysis meets it twice)
+SharedLearntReason ==
+  LET lr == {w \in Range(wb.why) : HasClause(w) /\ ClauseKind(w) = "learnt"}
+  IN \E a \in lr : \E b \in lr : a # b /\ a \in LearntAnc(b)
+
 \* the clause ids the solver reports for an Unsolvable verdict
 UnsatIds ==
   /\ E("unsatids") /\ UNCHANGED <<ctx, bb, wb, grp>>
+  /\ (IF RuleOn("C03") /\ SharedLearntReason THEN Cover(<<"sharedlearntreason">>) ELSE TRUE)
   /\ Chk("C02", UP(AllLits, {<<0, 1>>}) = {<<-1, -1>>}, "C02_RUPRefutation", 0)
   /\ Chk("C03", \A i \in Range(Rec[l].ids) : HasClause(i) /\ ClauseKind(i) # "learnt",
            "C03_ReportedIds", Rec[l].ids)
